@@ -14,10 +14,11 @@ SENT = ["Ends.", "Really?", "Yes!", "(so.)", 'said."']
 # words that look like block syntax (only those the line-start escaping is meant to protect: see known findings
 # for the ones it does not)
 HAZ = ["-", "+", "*", "#", "##", ">", "1.", "2)", "10.", "-x", "#tag", "1.5", "|", "a|b"]
-INLINE = ["*em*", "**strong**", "`code`", "`a b`", "[link](http://x.y)", "[l k](http://x.y/a_b \"T\")", "![img](i.png)",
+INLINE = ["*em*", "**strong**", "`code`", "`a b`", "[link](http://x.y)", "[l k](http://x.y/a_b \"T\")", "![img](i.png)", "[t](http://r.ef/x)", "[t2](http://r.ef/x \"Other\")", "![i2](http://r.ef/x)",
           "<http://auto.link>", "http://bare.url/x", "<https://e.com/o'neil>", "https://e.com/what's-new...x", "<b>", "</b>", "<span class=\"x y\">", "~~gone~~", "[^fn]", "[ref]",
           "\\*lit\\*", "2023\\.", "7\\)", "\\# no", "\"quoted\"", "it's", "wait...", "a_b_c", "2*3*4", "&amp;", "x<y"]
-TAGS = ["{% t %}", "{% /t %}", "{{ v }}", "{# c #}", "<!-- h -->", "{% a x=\"1 2\" %}", "{% t %}{% /t %}", "<!-- a --><!-- /a -->"]
+TAGS = ["{% t %}", "{% /t %}", "{{ v }}", "{# c #}", "<!-- h -->", "{% a x=\"1 2\" %}", "{% t %}{% /t %}", "<!-- a --><!-- /a -->",
+        "{% p l=\"50% used\" %}", "{{ i % 2 }}", "{# 10 # 2 #}", "<!-- a - b -> c -->"]
 HAZ_UNESCAPED = ["---", "===", "```", "~~~", "***", "___", ">q", "- - -", "----"]     # known finding C01-escape-hazards
 
 
@@ -100,7 +101,8 @@ def block(rnd, depth=0, with_tags=False, in_list=False):
         f = rnd.choice(("```", "````", "~~~"))
         lang = rnd.choice(("", "py", "js {x=1}"))
         code = "\n".join(rnd.choice(["x = 1", "  indented", "", "``` not a fence", "~~~", "> quoted", "- item", "a  b", "\ttab",
-                                      "{% tag %}", "\"q\" ... 'z'", "```", " ```", "   ````", "  ~~~~", "it's \"q\""])
+                                      "{% tag %}", "\"q\" ... 'z'", "```", " ```", "   ````", "  ~~~~", "it's \"q\"",
+                                      "...spread", "compiling...", "...     print(i)", "fmt...)", "wait... what"])
                          for _ in range(rnd.choice((1, 2, 4))))
         if f[0] == "`" and re.search(r"^ {0,3}`{%d,}" % len(f), code, re.M):
             f = "`" * 7
